@@ -406,7 +406,7 @@ func (c09) Plan(tier string) []core.Segment {
 	return []core.Segment{
 		{Gen: "spec", Profile: "tabfree", Count: gen.CorpusSize(), Exhaustive: true},
 		{Gen: "lines", Profile: "tabfree", Count: scale(tier, 750_000, 10_000_000)},
-		{Gen: "limits", Profile: "tabfree", Count: scale(tier, 4_000, 100_000), Desc: "documents on numeric thresholds"},
+		{Gen: "limits", Profile: "tabfree", Count: scale(tier, 12_000, 300_000), Desc: "documents on numeric thresholds"},
 		{Gen: "defsplit", Profile: "tabfree", Count: scale(tier, 150_000, 4_000_000), Desc: "definition-like paragraphs cut into lines at every place, inside containers with space/tab/partly consumed tab prefixes and hostile bytes right after the prefix"},
 		{Gen: "inlinex", Profile: "tabfree", Count: scale(tier, 150_000, 4_000_000), Desc: "well-formed inline trees whose delimiter tokens were deleted, duplicated, moved, swapped or respelled: constructs crossing each other's boundaries"},
 		{Gen: "modeldoc", Profile: "full", Count: scale(tier, 100_000, 3_000_000), Desc: "Markdown of model documents: nested containers, structural tabs, laziness, multi-line inline constructs"},
